@@ -79,6 +79,10 @@ def cases(tier, seed):
             yield {"kind": "forced_gap", "reader": variant, "ids": ids, "presize": None}
     yield {"kind": "seq", "presize": None, "ids": [5, 2]}
     yield {"kind": "flush_reuse", "ids": [2, 0]}
+    # one writer object used in several `with` sessions (closed and re-opened), observed inside and between the sessions
+    for sessions in ([[0, 1], [2]], [[1], [0], [2]], [[2, 0], [1, 3]], [[0], []], [[], [0, 1]]):
+        for presize in (None, 4):
+            yield {"kind": "sessions", "sessions": sessions, "presize": presize}
     n = 4 if quick else 5
     for presize in (None, 3):
         for ids in itertools.product(range(5), repeat=n):
@@ -169,6 +173,33 @@ def _body_seq(case):
             return _fail("storage/flush", {"files": [], "state": _expected({})}, {"files": left, "state": obs})
     return {"ok": True, "trivial": not case["ids"], "scenario": "storage/sequential", "expected": None,
             "observed": None}
+
+
+def _body_sessions(case):
+    from windpyutils.parallel.storage import TextFileStorage
+    with U.Scratch(kill_children=True) as sc:
+        s = TextFileStorage(sc.d, number_of_data=case["presize"])
+        ref, k = {}, 0
+        for si, ids in enumerate(case["sessions"]):
+            with s:
+                for g in ids:
+                    txt = text_for(k, g) + " session %d" % si
+                    k += 1
+                    s[g] = txt
+                    ref[g] = txt
+                    exp, obs = _expected(ref), _observe(s)
+                    bad = _diff(exp, obs)
+                    if bad:
+                        return _fail("storage/reopened-writer", {"session": si, "after-store": g, bad: exp[bad]}, {bad: obs[bad]})
+            exp, obs = _expected(ref), _observe(s)       # closed: still readable
+            bad = _diff(exp, obs)
+            if bad:
+                return _fail("storage/reopened-writer", {"after-session": si, bad: exp[bad]}, {bad: obs[bad]})
+            s.close()
+        s.flush()
+        if os.listdir(sc.d):
+            return _fail("storage/flush", [], os.listdir(sc.d))
+    return {"ok": True, "trivial": not ref, "scenario": "storage/reopened-writer", "expected": None, "observed": None}
 
 
 def _body_flush_reuse(case):
@@ -514,7 +545,7 @@ def _body_forced_gap(case):
 
 
 def run_case(case):
-    bodies = {"seq": _body_seq, "flush_reuse": _body_flush_reuse, "multiwriter": _body_multiwriter,
+    bodies = {"seq": _body_seq, "sessions": _body_sessions, "flush_reuse": _body_flush_reuse, "multiwriter": _body_multiwriter,
               "concurrent": _body_concurrent, "concurrent_dup": _body_concurrent_dup, "forced_gap": _body_forced_gap}
     kind = case.get("kind")
     if kind not in bodies:
